@@ -54,15 +54,25 @@ unsafe impl std::alloc::GlobalAlloc for Counting {
 /// largest processor time of a single call seen by this worker (reported per case)
 pub static MAX_CALL_CPU_MS: AtomicU64 = AtomicU64::new(0);
 
-/// user + system time of the calling thread in seconds (Linux: /proc/thread-self/stat, 10 ms ticks)
+/// processor time of the calling thread in seconds: clock_gettime(CLOCK_THREAD_CPUTIME_ID) of the C
+/// library that std links anyway (a /proc read per call made the sweep three times slower)
 fn thread_cpu_seconds() -> Option<f64> {
-    let s = std::fs::read_to_string("/proc/thread-self/stat").ok()?;
-    // the command name (field 2) may contain spaces: fields are counted behind its closing parenthesis
-    let rest = &s[s.rfind(')')? + 1..];
-    let f: Vec<&str> = rest.split_whitespace().collect();
-    let utime: u64 = f.get(11)?.parse().ok()?;
-    let stime: u64 = f.get(12)?.parse().ok()?;
-    Some((utime + stime) as f64 / 100.0)
+    #[repr(C)]
+    struct Timespec {
+        tv_sec: i64,
+        tv_nsec: i64,
+    }
+    extern "C" {
+        fn clock_gettime(clk_id: i32, tp: *mut Timespec) -> i32;
+    }
+    const CLOCK_THREAD_CPUTIME_ID: i32 = 3;
+    let mut t = Timespec { tv_sec: 0, tv_nsec: 0 };
+    // SAFETY: plain C call with a valid out pointer
+    if unsafe { clock_gettime(CLOCK_THREAD_CPUTIME_ID, &mut t) } == 0 {
+        Some(t.tv_sec as f64 + t.tv_nsec as f64 * 1e-9)
+    } else {
+        None
+    }
 }
 
 struct Meter {
@@ -211,7 +221,10 @@ fn run_all(ctx: &Ctx, mode: Mode, bytes: &[u8], what: String, n_opts: usize) {
         // values of ~24 bytes each, four times for slack, plus 4 MiB. For 64-bit records that is
         // ~5 MiB, for a single one-bit record the old flat 192 MiB.
         let bits: u64 = pc.prototype.iter().map(|r| { let t = crate::conv::ty_from_e57(&r.data_type); if matches!(t, e57spec::model::Ty::Int { min, max } | e57spec::model::Ty::Scaled { min, max, .. } if max < min) { 64 } else { t.bits() as u64 } }).sum::<u64>().max(1);
-        j.step_cons = ((1u64 << 19) / bits + 1) * pc.prototype.len().max(1) as u64 * 24 * 2 * 4 + (4 << 20);
+        // records without bits (minimum = maximum) carry no information: they do not enlarge what a
+        // step may hold, otherwise the allowance would grow with records x points instead of the input
+        let sized = pc.prototype.iter().filter(|r| crate::conv::ty_from_e57(&r.data_type).bits() > 0).count().max(1) as u64;
+        j.step_cons = ((1u64 << 19) / bits + 1) * sized * 24 * 2 * 4 + (4 << 20);
         // raw iterator
         let it = j.call("pointcloud_raw", &dev, 4, || r.pointcloud_raw(pc).ok());
         if let Some(Some(mut it)) = it {
@@ -361,7 +374,7 @@ fn sweep(ctx: &Ctx, mode: Mode) {
             .entry(si)
             .or_insert_with(|| {
                 let sd = seed(si);
-                let mn = if sd.bytes.is_empty() { Vec::new() } else { menu(&sd, si % 4 == 0) };
+                let mn = if sd.bytes.is_empty() { Vec::new() } else { menu(&sd, si % 4 == 0, si % 16 == 0) };
                 std::rc::Rc::new((sd, mn))
             })
             .clone()
@@ -514,4 +527,49 @@ pub fn pagecount(ctx: &Ctx) {
         }
         Ok(Err(err)) => ctx.violation("C08/pagecount/valid-file-refused".to_string(), format!("validate_crc refused a file of {pages} valid pages: {}", crate::harness::err_string(&err))),
     }
+}
+
+
+/// amplification by records without bits: one 1-bit record with B stream bytes in a single data
+/// packet next to Z records whose minimum equals their maximum. The input grows with Z + B, a
+/// reader that materialises every value needs memory proportional to Z * B.
+pub fn amplify(ctx: &Ctx) {
+    use e57spec::encode::{encode, Canonical, Knobs};
+    use e57spec::model::{self as m, Ty, Val};
+    // (thorough: also the long streams, 160000 and 240000 points)
+    let shapes: &[(usize, usize)] = if ctx.tier_thorough { &[(200, 4_000), (1000, 800), (3000, 300), (40, 20_000), (10, 30_000)] } else { &[(200, 4_000), (1000, 800)] };
+    let (z, b) = shapes[ctx.pick("records-x-stream-bytes", shapes.len())];
+    let scaled = ctx.pick("zero-width-type", 2) == 1;
+    let sized_last = ctx.pick("sized-record-last", 2) == 1;
+    let mode = if ctx.pick("oracle", 2) == 0 { Mode::Budget } else { Mode::NoPanic };
+    let zero_ty = if scaled { Ty::Scaled { min: 5, max: 5, scale: 0.5, offset: 1.0 } } else { Ty::Int { min: 5, max: 5 } };
+    let mut proto: Vec<m::Rec> = Vec::new();
+    if !sized_last {
+        proto.push(crate::cat::rec("cartesianX", Ty::Int { min: 0, max: 1 }));
+    }
+    for i in 0..z {
+        proto.push(crate::cat::ext_rec("ext", &format!("c{i}"), zero_ty.clone()));
+    }
+    if sized_last {
+        proto.push(crate::cat::rec("cartesianX", Ty::Int { min: 0, max: 1 }));
+    }
+    let n = 8 * b;
+    let zero_val = if scaled { Val::Scaled(5) } else { Val::Int(5) };
+    let points: Vec<Vec<Val>> = (0..n)
+        .map(|i| {
+            let mut p = vec![zero_val; z + 1];
+            p[if sized_last { z } else { 0 }] = Val::Int(((i * 7 + i / 3) % 2) as i64);
+            p
+        })
+        .collect();
+    let mut sc = crate::scenes::scene(0);
+    sc.clouds.clear();
+    sc.extensions = vec![("ext".into(), "http://example.com/ext".into())];
+    sc.clouds.push(m::Cloud { meta: m::CloudMeta { guid: Some("c".into()), ..Default::default() }, proto, points, records: n as u64, file_offset: 0 });
+    let bytes = encode(&sc, &mut Canonical, Knobs::NONE).bytes;
+    let what = format!("one 1-bit record with {b} stream bytes ({n} points, one data packet) and {z} records of type {} ({} bytes)", zero_ty.describe(), bytes.len());
+    ctx.describe(|| what.clone());
+    ctx.observe_u64((z * 1_000_000 + b) as u64);
+    run_all(ctx, mode, &bytes, what, 2);
+    ctx.nontrivial();
 }
